@@ -149,6 +149,7 @@ theorem step_apply (g : G) (a : Action) : CStep g.core (g.apply a).1.core := by
     · split
       · exact CStep.refl _
       · rw [core_wake]; exact CStep.refl _
+  | cancelRem p => exact step_deliverCancels g _
 
 theorem step_react (g : G) (a : Action) (hfix : g.fixed = true) (hinv : CInv g.core) :
     CStep g.core (react g a).1.core := by
